@@ -1,3 +1,838 @@
 // harnesses mounted as child module of agdb/src/db/db_value.rs
 #[allow(unused_imports)]
 use super::*;
+
+use crate::utilities::serialize::Serialize;
+use crate::storage::verif_h::data_of;
+use crate::storage::verif_h::fresh_arr_storage;
+use crate::verif_support::ArrStorage;
+use crate::verif_support::is_ok;
+use crate::verif_support::ok;
+
+// ---------------------------------------------------------------------------
+// shared helpers (also used by db_key_value_h.rs)
+// ---------------------------------------------------------------------------
+
+/// "Close and reopen": a new `Storage` built by the real open path
+/// (`Storage::with_data` -> `read_records`) from a copy of the bytes of `s`.
+pub(crate) fn reopen(s: &Storage<ArrStorage>) -> Storage<ArrStorage> {
+    let d = data_of(s);
+    // constant-size copy; bytes at offsets >= len are zero (ArrStorage invariant)
+    let mut a = ArrStorage::from_slice(&d.buf);
+    a.len = d.len;
+    ok(Storage::with_data(a))
+}
+
+/// Number of mutating back-end calls so far ("inline values allocate nothing").
+pub(crate) fn backend_calls(s: &Storage<ArrStorage>) -> u32 {
+    data_of(s).calls
+}
+
+/// `v == data[..n]` without any loop (so the global unwind bound can stay
+/// small); supports `N <= 18`.
+pub(crate) fn same_bytes<const N: usize>(v: &[u8], data: &[u8; N], n: usize) -> bool {
+    if v.len() != n || n > N {
+        return false;
+    }
+    let mut same = true;
+    macro_rules! at {
+        ($($i:literal)*) => { $( if $i < N && $i < n && v[$i] != data[$i] { same = false; } )* };
+    }
+    at!(0 1 2 3 4 5 6 7 8 9 10 11 12 13 14 15 16 17);
+    assert!(N <= 18);
+    same
+}
+
+/// A `Vec<u8>` equal to `data[..n]` built without a symbolic-length loop.
+pub(crate) fn vec_of<const N: usize>(data: &[u8; N], n: usize) -> Vec<u8> {
+    let mut v = data.to_vec();
+    v.truncate(n);
+    v
+}
+
+/// An ASCII `String` equal to `data[..n]` (caller guarantees `data[i] < 128`).
+pub(crate) fn ascii_string_of<const N: usize>(data: &[u8; N], n: usize) -> String {
+    unsafe { String::from_utf8_unchecked(vec_of(data, n)) }
+}
+
+pub(crate) fn all_ascii<const N: usize>(data: &[u8; N]) -> bool {
+    let mut okk = true;
+    macro_rules! at {
+        ($($i:literal)*) => { $( if $i < N && data[$i] >= 128 { okk = false; } )* };
+    }
+    at!(0 1 2 3 4 5 6 7 8 9 10 11 12 13 14 15 16 17);
+    assert!(N <= 18);
+    okk
+}
+
+/// Checks an index produced for an inline (<= 15 bytes) payload.
+pub(crate) fn c12_check_inline_index<const N: usize>(idx: &DbValueIndex, ty: u8, data: &[u8; N], n: usize) {
+    assert!(idx.get_type() == ty, "type tag of the stored value");
+    assert!(idx.is_value(), "small value must be stored inline");
+    assert!(idx.size() as usize == n, "inline size");
+    assert!(same_bytes(idx.value(), data, n), "inline payload bytes");
+}
+
+/// Checks an index produced for an out-of-line payload and the record it names.
+pub(crate) fn c12_check_stored_index(idx: &DbValueIndex, ty: u8, s: &Storage<ArrStorage>, record_size: u64) {
+    assert!(idx.get_type() == ty, "type tag of the stored value");
+    assert!(!idx.is_value(), "large value must be stored out of line");
+    assert!(idx.size() == 0, "index entry has no inline size");
+    assert!(idx.index() != 0, "storage index is never 0");
+    let size = ok(s.value_size(StorageIndex(idx.index())));
+    assert!(size == record_size, "size of the out-of-line record");
+}
+
+// ---------------------------------------------------------------------------
+// C12: scalars
+// ---------------------------------------------------------------------------
+
+fn c12_scalar_roundtrip(which: u8) {
+    let mut s = fresh_arr_storage();
+    let bits: u64 = kani::any();
+    let le = bits.to_le_bytes();
+    let (val, ty) = match which {
+        0 => (DbValue::I64(bits as i64), 2u8),
+        1 => (DbValue::U64(bits), 3u8),
+        _ => (DbValue::F64(DbF64::from(f64::from_bits(bits))), 4u8),
+    };
+    let len0 = s.len();
+    let idx = ok(val.store_db_value(&mut s));
+    c12_check_inline_index(&idx, ty, &le, 8);
+    assert!(backend_calls(&s) == 0 && s.len() == len0, "inline value must not touch the storage");
+    assert!(!is_ok(s.value_size(StorageIndex(1))), "inline value must not allocate a record");
+
+    // through the serialized form of the index, as DbKeyValue stores it
+    let img = idx.serialize();
+    let idx2 = ok(DbValueIndex::deserialize(&img));
+    // an inline value does not depend on the storage at all: the second load
+    // uses a different (empty) storage, which is what a reopened file is here
+    let s2 = fresh_arr_storage();
+    let mut round = 0;
+    while round < 2 {
+        let back = if round == 0 {
+            ok(DbValue::load_db_value(idx, &s))
+        } else {
+            ok(DbValue::load_db_value(idx2, &s2))
+        };
+        match (which, &back) {
+            (0, DbValue::I64(v)) => assert!(*v as u64 == bits, "i64 reads back identical"),
+            (1, DbValue::U64(v)) => assert!(*v == bits, "u64 reads back identical"),
+            (2, DbValue::F64(v)) => assert!(v.to_f64().to_bits() == bits, "f64 reads back bit for bit"),
+            _ => panic!("loaded value has a different type"),
+        }
+        std::mem::forget(back);
+        round += 1;
+    }
+    kani::cover!(which != 2 || (f64::from_bits(bits).is_nan() && bits & 1 == 1), "NaN with payload");
+    kani::cover!(which != 2 || bits == 0x8000_0000_0000_0000, "negative zero");
+    kani::cover!(which != 0 || bits as i64 == i64::MIN, "i64::MIN");
+    kani::cover!(which != 1 || bits == u64::MAX, "u64::MAX");
+    kani::cover!(true, "end of harness reachable");
+    std::mem::forget(img);
+    std::mem::forget(val);
+    std::mem::forget(s);
+    std::mem::forget(s2);
+}
+
+//@ id=C12 tier=quick timeout=300 bounds="I64: all 2^64 values" desc="store_db_value keeps an i64 inline (8 bytes LE, no back-end write); load_db_value returns I64 with the same value, also through DbValueIndex serialize/deserialize and from a different storage" kernel="DbValue::store_db_value,DbValue::load_db_value,DbValueIndex::set_type,DbValueIndex::set_value,DbValueIndex::value,DbValueIndex::get_type,DbValueIndex::serialize,DbValueIndex::deserialize"
+#[kani::proof]
+#[kani::stub(std::fmt::format, crate::verif_support::fmt_stub)]
+#[kani::stub(crate::DbError::new, crate::verif_support::dberror_new_stub)]
+#[kani::unwind(4)]
+fn c12_i64_roundtrip() {
+    c12_scalar_roundtrip(0);
+}
+
+//@ id=C12 tier=quick timeout=300 bounds="U64: all 2^64 values" desc="store_db_value keeps a u64 inline (8 bytes LE, no back-end write); load_db_value returns U64 with the same value, also through DbValueIndex serialize/deserialize and from a different storage" kernel="DbValue::store_db_value,DbValue::load_db_value,DbValueIndex::set_type,DbValueIndex::set_value,DbValueIndex::value,DbValueIndex::get_type,DbValueIndex::serialize,DbValueIndex::deserialize"
+#[kani::proof]
+#[kani::stub(std::fmt::format, crate::verif_support::fmt_stub)]
+#[kani::stub(crate::DbError::new, crate::verif_support::dberror_new_stub)]
+#[kani::unwind(4)]
+fn c12_u64_roundtrip() {
+    c12_scalar_roundtrip(1);
+}
+
+//@ id=C12 tier=quick timeout=300 bounds="F64: all 2^64 bit patterns (NaN payloads, signed zeros, subnormals, infinities)" desc="store_db_value keeps an f64 inline (8 bytes LE, no back-end write); load_db_value returns F64 with identical bits (to_bits), also through DbValueIndex serialize/deserialize and from a different storage" kernel="DbValue::store_db_value,DbValue::load_db_value,DbF64::to_f64,DbValueIndex::set_type,DbValueIndex::set_value,DbValueIndex::value,DbValueIndex::get_type,DbValueIndex::serialize,DbValueIndex::deserialize"
+#[kani::proof]
+#[kani::stub(std::fmt::format, crate::verif_support::fmt_stub)]
+#[kani::stub(crate::DbError::new, crate::verif_support::dberror_new_stub)]
+#[kani::unwind(4)]
+fn c12_f64_roundtrip() {
+    c12_scalar_roundtrip(2);
+}
+
+// ---------------------------------------------------------------------------
+// C12: Bytes and String across the 15/16-byte inline boundary
+// ---------------------------------------------------------------------------
+
+/// Builds the value under test (callers pass a CONCRETE `n`: the type/size
+/// byte of the index then stays a constant for CBMC, so `load_db_value` is not
+/// explored for all nine types).
+pub(crate) fn c12_make(is_string: bool, data: &[u8; 17], n: usize) -> (DbValue, u8) {
+    if is_string {
+        (DbValue::String(ascii_string_of(data, n)), 5u8)
+    } else {
+        (DbValue::Bytes(vec_of(data, n)), 1u8)
+    }
+}
+
+pub(crate) fn c12_check_loaded(back: &DbValue, is_string: bool, data: &[u8; 17], n: usize) {
+    match back {
+        DbValue::Bytes(v) => {
+            assert!(!is_string, "loaded value has a different type");
+            assert!(same_bytes(v.as_slice(), data, n), "bytes read back identical");
+        }
+        DbValue::String(v) => {
+            assert!(is_string, "loaded value has a different type");
+            assert!(same_bytes(v.as_bytes(), data, n), "string reads back identical");
+        }
+        _ => panic!("loaded value has a different type"),
+    }
+}
+
+/// Inline case (n <= 15): store into `s`, load from `s` and - through the
+/// serialized index - from the unrelated storage `other`.
+fn c12_inline_roundtrip(
+    s: &mut Storage<ArrStorage>,
+    other: &Storage<ArrStorage>,
+    is_string: bool,
+    data: &[u8; 17],
+    n: usize,
+) {
+    let (val, ty) = c12_make(is_string, data, n);
+    let len0 = s.len();
+    let idx = ok(val.store_db_value(s));
+    c12_check_inline_index(&idx, ty, data, n);
+    assert!(backend_calls(s) == 0 && s.len() == len0, "inline value must not touch the storage");
+    assert!(!is_ok(s.value_size(StorageIndex(1))), "inline value must not allocate a record");
+    let img = idx.serialize();
+    let idx2 = ok(DbValueIndex::deserialize(&img));
+    assert!(same_bytes(&idx2.data(), &idx.data(), 16), "index survives its serialized form");
+    let back = ok(DbValue::load_db_value(idx, s));
+    c12_check_loaded(&back, is_string, data, n);
+    let back2 = ok(DbValue::load_db_value(idx2, other));
+    c12_check_loaded(&back2, is_string, data, n);
+    std::mem::forget(back);
+    std::mem::forget(back2);
+    std::mem::forget(img);
+    std::mem::forget(val);
+}
+
+/// Out-of-line case (n >= 16): one record; load from the storage and from a
+/// storage reopened through the real open path from a copy of the bytes.
+fn c12_stored_roundtrip(is_string: bool, n: usize) {
+    let data: [u8; 17] = kani::any();
+    if is_string {
+        kani::assume(all_ascii(&data));
+    }
+    c12_stored_roundtrip_of(is_string, n, data);
+}
+
+fn c12_stored_roundtrip_of(is_string: bool, n: usize, data: [u8; 17]) {
+    let mut s = fresh_arr_storage();
+    let (val, ty) = c12_make(is_string, &data, n);
+    let len0 = s.len();
+    let idx = ok(val.store_db_value(&mut s));
+    // Bytes are stored raw, a String with its 8-byte length prefix
+    let record = if is_string { 8 + n as u64 } else { n as u64 };
+    c12_check_stored_index(&idx, ty, &s, record);
+    assert!(idx.index() == 1, "first record of an empty storage");
+    assert!(s.len() == len0 + 16 + record, "exactly one record appended");
+    assert!(!is_ok(s.value_size(StorageIndex(2))), "only one record allocated");
+    let img = idx.serialize();
+    let idx2 = ok(DbValueIndex::deserialize(&img));
+    assert!(same_bytes(&idx2.data(), &idx.data(), 16), "index survives its serialized form");
+    let back = ok(DbValue::load_db_value(idx, &s));
+    c12_check_loaded(&back, is_string, &data, n);
+    let s2 = reopen(&s);
+    let back2 = ok(DbValue::load_db_value(idx2, &s2));
+    c12_check_loaded(&back2, is_string, &data, n);
+    std::mem::forget(back);
+    std::mem::forget(back2);
+    std::mem::forget(img);
+    std::mem::forget(val);
+    std::mem::forget(s);
+    std::mem::forget(s2);
+}
+
+/// Content for the inline String sweep. `String::from_utf8_lossy` (used by
+/// `load_db_value` for inline strings) over symbolic bytes explodes in CBMC
+/// (1 length with 2 symbolic bytes: 146 s; fully symbolic: no result in 400 s;
+/// concrete: 1 s), so the sweep uses position-dependent concrete ASCII.
+/// Symbolic string content is covered by `c12_string_utf8_inline` (<= 4 bytes)
+/// and the out-of-line harnesses; symbolic payload bytes of every inline
+/// length by the Bytes sweep and `c12_index_set_value_every_length`.
+fn c12_sweep_string_data(_n: usize) -> [u8; 17] {
+    [
+        b'a', b'B', b'c', b'D', b'e', b'F', b'g', b'H', b'i', b'J', b'k', b'L', b'm', b'N', b'o', b'P', b'q',
+    ]
+}
+
+/// Every length 0..=15 (unrolled: `n` is a literal in each call).
+fn c12_inline_sweep(is_string: bool) {
+    let mut s = fresh_arr_storage();
+    let other = fresh_arr_storage();
+    macro_rules! each {
+        ($($n:literal)*) => { $(
+            let data: [u8; 17] = if is_string { c12_sweep_string_data($n) } else { kani::any() };
+            c12_inline_roundtrip(&mut s, &other, is_string, &data, $n);
+        )* };
+    }
+    each!(0 1 2 3 4 5 6 7 8 9 10 11 12 13 14 15);
+    kani::cover!(true, "end of harness reachable");
+    std::mem::forget(s);
+    std::mem::forget(other);
+}
+
+//@ id=C12 tier=quick timeout=600 bounds="Bytes, every length 0..=15 (enumerated), content fully symbolic" desc="every inline-size Bytes value is stored inline (type tag, size, payload) without any back-end write or record, and load_db_value returns identical content from the same and from an unrelated storage" kernel="DbValue::store_db_value,DbValue::load_db_value,DbValueIndex::set_value,DbValueIndex::set_index,DbValueIndex::is_value,Storage::insert_bytes,Storage::insert,Storage::value,Storage::value_as_bytes,Storage::with_data,String::serialize,String::deserialize"
+#[kani::proof]
+#[kani::stub(std::fmt::format, crate::verif_support::fmt_stub)]
+#[kani::stub(crate::DbError::new, crate::verif_support::dberror_new_stub)]
+#[kani::stub(<crate::DbError as std::convert::From<std::string::FromUtf8Error>>::from, crate::verif_support::utf8err_stub)]
+#[kani::unwind(4)]
+fn c12_bytes_inline_all_lengths() {
+    c12_inline_sweep(false);
+}
+
+//@ id=C12 tier=quick timeout=900 bounds="ASCII String, every length 0..=15 (enumerated); content: distinct concrete letters (prefixes of aBcDeFgHiJkLmNo)" desc="every inline-size String is stored inline (type tag, size, payload) without any back-end write or record, and load_db_value returns the identical string from the same and from an unrelated storage" cbmc="--unwindset _RNvXs2_NtNtCs8xvirJzNMvV_4core3str5lossyNtB5_10Utf8ChunksNtNtNtNtB9_4iter6traits8iterator8Iterator4next.0:17" kernel="DbValue::store_db_value,DbValue::load_db_value,DbValueIndex::set_value,DbValueIndex::set_index,DbValueIndex::is_value,Storage::insert_bytes,Storage::insert,Storage::value,Storage::value_as_bytes,Storage::with_data,String::serialize,String::deserialize"
+#[kani::proof]
+#[kani::stub(std::fmt::format, crate::verif_support::fmt_stub)]
+#[kani::stub(crate::DbError::new, crate::verif_support::dberror_new_stub)]
+#[kani::stub(<crate::DbError as std::convert::From<std::string::FromUtf8Error>>::from, crate::verif_support::utf8err_stub)]
+#[kani::unwind(4)]
+fn c12_string_inline_all_lengths() {
+    c12_inline_sweep(true);
+}
+
+pub(crate) fn c12_data_from_str(t: &str) -> [u8; 17] {
+    let b = t.as_bytes();
+    let mut data = [0u8; 17];
+    macro_rules! at {
+        ($($i:literal)*) => { $( if $i < b.len() { data[$i] = b[$i]; } )* };
+    }
+    at!(0 1 2 3 4 5 6 7 8 9 10 11 12 13 14 15 16);
+    data
+}
+
+// Symbolic non-ASCII content is out of reach for the inline path: 2 symbolic
+// UTF-8 bytes through `String::from_utf8_lossy` made the solver run out of
+// memory (10 GB) - measured. Concrete multi-byte strings instead, including a
+// 15-byte one (largest inline) whose last scalar is 4 bytes wide.
+//@ id=C12 tier=quick timeout=600 bounds="concrete non-ASCII strings: 2-, 3-, 4-byte scalars alone (U+00E9, U+20AC, U+1F600, U+10FFFF) and a 15-byte mix of all widths" desc="multi-byte UTF-8 strings up to the inline limit are stored inline and read back with identical bytes from the same and from an unrelated storage" cbmc="--unwindset _RNvXs2_NtNtCs8xvirJzNMvV_4core3str5lossyNtB5_10Utf8ChunksNtNtNtNtB9_4iter6traits8iterator8Iterator4next.0:17" kernel="DbValue::store_db_value,DbValue::load_db_value,DbValueIndex::set_value,DbValueIndex::set_index,DbValueIndex::is_value,Storage::insert,Storage::value,Storage::with_data,String::serialize,String::deserialize"
+#[kani::proof]
+#[kani::stub(std::fmt::format, crate::verif_support::fmt_stub)]
+#[kani::stub(crate::DbError::new, crate::verif_support::dberror_new_stub)]
+#[kani::stub(<crate::DbError as std::convert::From<std::string::FromUtf8Error>>::from, crate::verif_support::utf8err_stub)]
+#[kani::unwind(4)]
+fn c12_string_utf8_inline() {
+    let mut s = fresh_arr_storage();
+    let other = fresh_arr_storage();
+    macro_rules! each {
+        ($(($t:literal, $n:literal))*) => { $(
+            assert!($t.len() == $n);
+            let data = c12_data_from_str($t);
+            c12_inline_roundtrip(&mut s, &other, true, &data, $n);
+        )* };
+    }
+    each!(("\u{e9}", 2) ("\u{20ac}", 3) ("\u{1f600}", 4) ("\u{10ffff}", 4) ("ab\u{e9}\u{20ac}cdef\u{1f600}", 15));
+    kani::cover!(true, "end of harness reachable");
+    std::mem::forget(s);
+    std::mem::forget(other);
+}
+
+//@ id=C12 tier=quick timeout=900 bounds="Bytes of exactly 16 symbolic bytes (smallest out-of-line size)" desc="16-byte Bytes goes to exactly one storage record (raw bytes) and reads back identical from the storage and from a storage reopened via Storage::with_data from a copy of the bytes" cbmc="--max-field-sensitivity-array-size 200" kernel="DbValue::store_db_value,DbValue::load_db_value,DbValueIndex::set_value,DbValueIndex::set_index,DbValueIndex::is_value,Storage::insert_bytes,Storage::insert,Storage::value,Storage::value_as_bytes,Storage::with_data,String::serialize,String::deserialize"
+#[kani::proof]
+#[kani::stub(std::fmt::format, crate::verif_support::fmt_stub)]
+#[kani::stub(crate::DbError::new, crate::verif_support::dberror_new_stub)]
+#[kani::stub(<crate::DbError as std::convert::From<std::string::FromUtf8Error>>::from, crate::verif_support::utf8err_stub)]
+#[kani::unwind(4)]
+fn c12_bytes16_reopen() {
+    c12_stored_roundtrip(false, 16);
+    kani::cover!(true, "end of harness reachable");
+}
+
+//@ id=C12 tier=quick timeout=900 bounds="Bytes of exactly 17 symbolic bytes (one past the boundary)" desc="17-byte Bytes goes to exactly one storage record (raw bytes) and reads back identical from the storage and from a storage reopened via Storage::with_data from a copy of the bytes" cbmc="--max-field-sensitivity-array-size 200" kernel="DbValue::store_db_value,DbValue::load_db_value,DbValueIndex::set_value,DbValueIndex::set_index,DbValueIndex::is_value,Storage::insert_bytes,Storage::insert,Storage::value,Storage::value_as_bytes,Storage::with_data,String::serialize,String::deserialize"
+#[kani::proof]
+#[kani::stub(std::fmt::format, crate::verif_support::fmt_stub)]
+#[kani::stub(crate::DbError::new, crate::verif_support::dberror_new_stub)]
+#[kani::stub(<crate::DbError as std::convert::From<std::string::FromUtf8Error>>::from, crate::verif_support::utf8err_stub)]
+#[kani::unwind(4)]
+fn c12_bytes17_reopen() {
+    c12_stored_roundtrip(false, 17);
+    kani::cover!(true, "end of harness reachable");
+}
+
+//@ id=C12 tier=quick timeout=900 bounds="ASCII String of exactly 16 symbolic bytes (smallest out-of-line size)" desc="16-byte ASCII String goes to exactly one storage record (8-byte length + bytes) and reads back identical from the storage and from a storage reopened via Storage::with_data from a copy of the bytes" cbmc="--max-field-sensitivity-array-size 200" kernel="DbValue::store_db_value,DbValue::load_db_value,DbValueIndex::set_value,DbValueIndex::set_index,DbValueIndex::is_value,Storage::insert_bytes,Storage::insert,Storage::value,Storage::value_as_bytes,Storage::with_data,String::serialize,String::deserialize"
+#[kani::proof]
+#[kani::stub(std::fmt::format, crate::verif_support::fmt_stub)]
+#[kani::stub(crate::DbError::new, crate::verif_support::dberror_new_stub)]
+#[kani::stub(<crate::DbError as std::convert::From<std::string::FromUtf8Error>>::from, crate::verif_support::utf8err_stub)]
+#[kani::unwind(4)]
+fn c12_string16_reopen() {
+    c12_stored_roundtrip(true, 16);
+    kani::cover!(true, "end of harness reachable");
+}
+
+//@ id=C12 tier=quick timeout=900 bounds="ASCII String of exactly 17 symbolic bytes (one past the boundary)" desc="17-byte ASCII String goes to exactly one storage record (8-byte length + bytes) and reads back identical from the storage and from a storage reopened via Storage::with_data from a copy of the bytes" cbmc="--max-field-sensitivity-array-size 200" kernel="DbValue::store_db_value,DbValue::load_db_value,DbValueIndex::set_value,DbValueIndex::set_index,DbValueIndex::is_value,Storage::insert_bytes,Storage::insert,Storage::value,Storage::value_as_bytes,Storage::with_data,String::serialize,String::deserialize"
+#[kani::proof]
+#[kani::stub(std::fmt::format, crate::verif_support::fmt_stub)]
+#[kani::stub(crate::DbError::new, crate::verif_support::dberror_new_stub)]
+#[kani::stub(<crate::DbError as std::convert::From<std::string::FromUtf8Error>>::from, crate::verif_support::utf8err_stub)]
+#[kani::unwind(4)]
+fn c12_string17_reopen() {
+    c12_stored_roundtrip(true, 17);
+    kani::cover!(true, "end of harness reachable");
+}
+
+// Out-of-line NON-ASCII strings are not covered: a 16-byte string with a
+// symbolic valid-UTF-8 tail of 4 bytes, and even two concrete multi-byte
+// strings of 16/17 bytes with reopen, did not finish in 900 s (UTF-8
+// validation of bytes read back from the 192-byte storage array).
+
+// ---------------------------------------------------------------------------
+// C12: vectors (always out of line), 0, 1 and 2 elements, in one storage
+// ---------------------------------------------------------------------------
+
+pub(crate) fn c12_make_num_vec(which: u8, e: &[u64]) -> DbValue {
+    match which {
+        0 => {
+            let mut v = Vec::with_capacity(2);
+            if e.len() > 0 { v.push(e[0] as i64); }
+            if e.len() > 1 { v.push(e[1] as i64); }
+            DbValue::VecI64(v)
+        }
+        1 => {
+            let mut v = Vec::with_capacity(2);
+            if e.len() > 0 { v.push(e[0]); }
+            if e.len() > 1 { v.push(e[1]); }
+            DbValue::VecU64(v)
+        }
+        _ => {
+            let mut v = Vec::with_capacity(2);
+            if e.len() > 0 { v.push(DbF64::from(f64::from_bits(e[0]))); }
+            if e.len() > 1 { v.push(DbF64::from(f64::from_bits(e[1]))); }
+            DbValue::VecF64(v)
+        }
+    }
+}
+
+pub(crate) fn c12_check_num_vec(back: &DbValue, which: u8, e: &[u64]) {
+    match (which, back) {
+        (0, DbValue::VecI64(v)) => {
+            assert!(v.len() == e.len(), "vector length");
+            if e.len() > 0 { assert!(v[0] as u64 == e[0], "first element"); }
+            if e.len() > 1 { assert!(v[1] as u64 == e[1], "second element"); }
+        }
+        (1, DbValue::VecU64(v)) => {
+            assert!(v.len() == e.len(), "vector length");
+            if e.len() > 0 { assert!(v[0] == e[0], "first element"); }
+            if e.len() > 1 { assert!(v[1] == e[1], "second element"); }
+        }
+        (2, DbValue::VecF64(v)) => {
+            assert!(v.len() == e.len(), "vector length");
+            if e.len() > 0 { assert!(v[0].to_f64().to_bits() == e[0], "first element bit for bit"); }
+            if e.len() > 1 { assert!(v[1].to_f64().to_bits() == e[1], "second element bit for bit"); }
+        }
+        _ => panic!("loaded value has a different type"),
+    }
+}
+
+fn c12_num_vec_roundtrip(which: u8) {
+    let ty = 6 + which;
+    let mut s = fresh_arr_storage();
+    let e: [u64; 3] = kani::any();
+    let v0 = c12_make_num_vec(which, &e[0..0]);
+    let v1 = c12_make_num_vec(which, &e[0..1]);
+    let v2 = c12_make_num_vec(which, &e[1..3]);
+    let i0 = ok(v0.store_db_value(&mut s));
+    let i1 = ok(v1.store_db_value(&mut s));
+    let i2 = ok(v2.store_db_value(&mut s));
+    // vectors are always out of line, even the empty one: 8-byte count + 8 per element
+    c12_check_stored_index(&i0, ty, &s, 8);
+    c12_check_stored_index(&i1, ty, &s, 16);
+    c12_check_stored_index(&i2, ty, &s, 24);
+    assert!(i0.index() == 1 && i1.index() == 2 && i2.index() == 3, "three distinct records");
+    assert!(s.len() == 24 + (16 + 8) + (16 + 16) + (16 + 24), "exactly three records appended");
+    let b0 = ok(DbValue::load_db_value(i0, &s));
+    let b1 = ok(DbValue::load_db_value(i1, &s));
+    let b2 = ok(DbValue::load_db_value(i2, &s));
+    c12_check_num_vec(&b0, which, &e[0..0]);
+    c12_check_num_vec(&b1, which, &e[0..1]);
+    c12_check_num_vec(&b2, which, &e[1..3]);
+    let s2 = reopen(&s);
+    let j0 = ok(DbValueIndex::deserialize(&i0.serialize()));
+    let j1 = ok(DbValueIndex::deserialize(&i1.serialize()));
+    let j2 = ok(DbValueIndex::deserialize(&i2.serialize()));
+    let r0 = ok(DbValue::load_db_value(j0, &s2));
+    let r1 = ok(DbValue::load_db_value(j1, &s2));
+    let r2 = ok(DbValue::load_db_value(j2, &s2));
+    c12_check_num_vec(&r0, which, &e[0..0]);
+    c12_check_num_vec(&r1, which, &e[0..1]);
+    c12_check_num_vec(&r2, which, &e[1..3]);
+    kani::cover!(e[1] != e[2], "two different elements");
+    kani::cover!(true, "end of harness reachable");
+    std::mem::forget((v0, v1, v2, b0, b1, b2, r0, r1, r2));
+    std::mem::forget(s);
+    std::mem::forget(s2);
+}
+
+//@ id=C12 tier=quick timeout=900 bounds="VecI64: vectors of 0, 1 and 2 elements (enumerated) stored in one storage, elements all 2^64 values" desc="each vector goes to its own record of 8+8n bytes (also the empty one), and reads back with the same length and elements from the storage and after reopen via Storage::with_data" cbmc="--max-field-sensitivity-array-size 200" kernel="DbValue::store_db_value,DbValue::load_db_value,DbValueIndex::set_index,DbValueIndex::index,DbValueIndex::is_value,Storage::insert,Storage::value,Storage::with_data,Vec<T>::serialize,Vec<T>::deserialize,DbF64::serialize,DbF64::deserialize"
+#[kani::proof]
+#[kani::stub(std::fmt::format, crate::verif_support::fmt_stub)]
+#[kani::stub(crate::DbError::new, crate::verif_support::dberror_new_stub)]
+#[kani::stub(<crate::DbError as std::convert::From<std::string::FromUtf8Error>>::from, crate::verif_support::utf8err_stub)]
+#[kani::unwind(6)]
+fn c12_vec_i64_roundtrip() {
+    c12_num_vec_roundtrip(0);
+}
+
+//@ id=C12 tier=quick timeout=900 bounds="VecU64: vectors of 0, 1 and 2 elements (enumerated) stored in one storage, elements all 2^64 values" desc="each vector goes to its own record of 8+8n bytes (also the empty one), and reads back with the same length and elements from the storage and after reopen via Storage::with_data" cbmc="--max-field-sensitivity-array-size 200" kernel="DbValue::store_db_value,DbValue::load_db_value,DbValueIndex::set_index,DbValueIndex::index,DbValueIndex::is_value,Storage::insert,Storage::value,Storage::with_data,Vec<T>::serialize,Vec<T>::deserialize,DbF64::serialize,DbF64::deserialize"
+#[kani::proof]
+#[kani::stub(std::fmt::format, crate::verif_support::fmt_stub)]
+#[kani::stub(crate::DbError::new, crate::verif_support::dberror_new_stub)]
+#[kani::stub(<crate::DbError as std::convert::From<std::string::FromUtf8Error>>::from, crate::verif_support::utf8err_stub)]
+#[kani::unwind(6)]
+fn c12_vec_u64_roundtrip() {
+    c12_num_vec_roundtrip(1);
+}
+
+//@ id=C12 tier=quick timeout=900 bounds="VecF64 (all bit patterns, compared by to_bits): vectors of 0, 1 and 2 elements (enumerated) stored in one storage, elements all 2^64 values" desc="each vector goes to its own record of 8+8n bytes (also the empty one), and reads back with the same length and elements from the storage and after reopen via Storage::with_data" cbmc="--max-field-sensitivity-array-size 200" kernel="DbValue::store_db_value,DbValue::load_db_value,DbValueIndex::set_index,DbValueIndex::index,DbValueIndex::is_value,Storage::insert,Storage::value,Storage::with_data,Vec<T>::serialize,Vec<T>::deserialize,DbF64::serialize,DbF64::deserialize"
+#[kani::proof]
+#[kani::stub(std::fmt::format, crate::verif_support::fmt_stub)]
+#[kani::stub(crate::DbError::new, crate::verif_support::dberror_new_stub)]
+#[kani::stub(<crate::DbError as std::convert::From<std::string::FromUtf8Error>>::from, crate::verif_support::utf8err_stub)]
+#[kani::unwind(6)]
+fn c12_vec_f64_roundtrip() {
+    c12_num_vec_roundtrip(2);
+}
+
+fn c12_check_str_vec(back: &DbValue, n: usize, a: &[u8; 3], la: usize, b: &[u8; 3], lb: usize) {
+    match back {
+        DbValue::VecString(v) => {
+            assert!(v.len() == n, "vector length");
+            if n > 0 { assert!(same_bytes(v[0].as_bytes(), a, la), "first string identical"); }
+            if n > 1 { assert!(same_bytes(v[1].as_bytes(), b, lb), "second string identical"); }
+        }
+        _ => panic!("loaded value has a different type"),
+    }
+}
+
+//@ id=C12 tier=quick timeout=900 bounds="VecString: [], [s1] and [s2, s3] stored in one storage; s1 = 2, s2 = 0, s3 = 3 symbolic ASCII bytes" desc="each string vector goes to its own record of 8 + sum(8+len) bytes (also the empty one) and reads back with the same length and identical strings (incl. an empty string element) from the storage and after reopen via Storage::with_data" cbmc="--max-field-sensitivity-array-size 200" kernel="DbValue::store_db_value,DbValue::load_db_value,DbValueIndex::set_index,DbValueIndex::index,DbValueIndex::is_value,Storage::insert,Storage::value,Storage::with_data,Vec<String>::serialize,Vec<String>::deserialize,String::serialize,String::deserialize"
+#[kani::proof]
+#[kani::stub(std::fmt::format, crate::verif_support::fmt_stub)]
+#[kani::stub(crate::DbError::new, crate::verif_support::dberror_new_stub)]
+#[kani::stub(<crate::DbError as std::convert::From<std::string::FromUtf8Error>>::from, crate::verif_support::utf8err_stub)]
+#[kani::unwind(6)]
+fn c12_vec_string_roundtrip() {
+    let mut s = fresh_arr_storage();
+    let a: [u8; 3] = kani::any();
+    let b: [u8; 3] = kani::any();
+    kani::assume(all_ascii(&a) && all_ascii(&b));
+    let none = [0u8; 3];
+    let v0 = DbValue::VecString(Vec::new());
+    let mut w1 = Vec::with_capacity(1);
+    w1.push(ascii_string_of(&a, 2));
+    let v1 = DbValue::VecString(w1);
+    let mut w2 = Vec::with_capacity(2);
+    w2.push(String::new());
+    w2.push(ascii_string_of(&b, 3));
+    let v2 = DbValue::VecString(w2);
+    let i0 = ok(v0.store_db_value(&mut s));
+    let i1 = ok(v1.store_db_value(&mut s));
+    let i2 = ok(v2.store_db_value(&mut s));
+    c12_check_stored_index(&i0, 9, &s, 8);
+    c12_check_stored_index(&i1, 9, &s, 8 + 8 + 2);
+    c12_check_stored_index(&i2, 9, &s, 8 + 8 + 0 + 8 + 3);
+    assert!(i0.index() == 1 && i1.index() == 2 && i2.index() == 3, "three distinct records");
+    let b0 = ok(DbValue::load_db_value(i0, &s));
+    let b1 = ok(DbValue::load_db_value(i1, &s));
+    let b2 = ok(DbValue::load_db_value(i2, &s));
+    c12_check_str_vec(&b0, 0, &none, 0, &none, 0);
+    c12_check_str_vec(&b1, 1, &a, 2, &none, 0);
+    c12_check_str_vec(&b2, 2, &none, 0, &b, 3);
+    let s2 = reopen(&s);
+    let j0 = ok(DbValueIndex::deserialize(&i0.serialize()));
+    let j1 = ok(DbValueIndex::deserialize(&i1.serialize()));
+    let j2 = ok(DbValueIndex::deserialize(&i2.serialize()));
+    let r0 = ok(DbValue::load_db_value(j0, &s2));
+    let r1 = ok(DbValue::load_db_value(j1, &s2));
+    let r2 = ok(DbValue::load_db_value(j2, &s2));
+    c12_check_str_vec(&r0, 0, &none, 0, &none, 0);
+    c12_check_str_vec(&r1, 1, &a, 2, &none, 0);
+    c12_check_str_vec(&r2, 2, &none, 0, &b, 3);
+    kani::cover!(a[0] != a[1], "different characters");
+    kani::cover!(true, "end of harness reachable");
+    std::mem::forget((v0, v1, v2, b0, b1, b2, r0, r1, r2));
+    std::mem::forget(s);
+    std::mem::forget(s2);
+}
+
+// ---------------------------------------------------------------------------
+// C07: decoding a damaged value index never panics
+// ---------------------------------------------------------------------------
+
+/// A small VALID storage: record 1 = String "abc" (8-byte length + 3 bytes),
+/// record 2 = Vec<i64> [7] (8-byte count + 8 bytes).
+pub(crate) fn c07_small_storage() -> Storage<ArrStorage> {
+    let mut s = fresh_arr_storage();
+    let i1 = ok(s.insert(&String::from("abc")));
+    let mut v = Vec::with_capacity(1);
+    v.push(7_i64);
+    let i2 = ok(s.insert(&v));
+    assert!(i1.0 == 1 && i2.0 == 2);
+    std::mem::forget(v);
+    s
+}
+
+// Encoding note: a symbolic type nibble makes CBMC walk all nine arms of
+// `load_db_value` including the storage reads with symbolic record index
+// (3.3 M steps, solver out of memory at 10 GB - measured). The type/size byte
+// is therefore ENUMERATED (all 256 values of byte 15 that are in scope) and
+// only the 15 payload bytes are symbolic; storage indexes are enumerated too.
+
+/// One decode of an index with byte 15 = (t << 4) | sz and arbitrary payload,
+/// for the (t, sz) that make `load_db_value` decide WITHOUT reading the
+/// storage: every tag except the vector tags 6..=9; Bytes/String only when
+/// `is_value()` (sz != 0, or sz == 0 with storage index 0).
+/// Restriction for cost (stated in `bounds`): inline String of at most 2 bytes
+/// (`String::from_utf8_lossy` over more symbolic bytes does not finish).
+fn c07_decode_inline(s: &Storage<ArrStorage>, t: u8, sz: u8, wellformed_only: bool) {
+    if t >= 6 && t <= 9 {
+        return;
+    }
+    if t == 5 && sz > 2 {
+        return;
+    }
+    if wellformed_only {
+        // what store_db_value can write into byte 15
+        if t < 1 || t > 5 {
+            return;
+        }
+        if t >= 2 && t <= 4 && sz != 8 {
+            return;
+        }
+    }
+    let mut raw: [u8; 16] = kani::any();
+    raw[15] = (t << 4) | sz;
+    if (t == 1 || t == 5) && sz == 0 {
+        // empty inline value: storage index 0
+        raw[0] = 0; raw[1] = 0; raw[2] = 0; raw[3] = 0;
+        raw[4] = 0; raw[5] = 0; raw[6] = 0; raw[7] = 0;
+    }
+    let idx = ok(DbValueIndex::deserialize(&raw));
+    let r = DbValue::load_db_value(idx, s);
+    if wellformed_only {
+        let n = sz as usize;
+        match &r {
+            Ok(DbValue::Bytes(v)) => assert!(t == 1 && same_bytes(v.as_slice(), &raw, n), "inline bytes are the payload"),
+            Ok(DbValue::I64(v)) => assert!(t == 2 && same_bytes(&v.to_le_bytes(), &raw, 8), "inline i64 is the payload"),
+            Ok(DbValue::U64(v)) => assert!(t == 3 && same_bytes(&v.to_le_bytes(), &raw, 8), "inline u64 is the payload"),
+            Ok(DbValue::F64(v)) => assert!(t == 4 && same_bytes(&v.to_f64().to_bits().to_le_bytes(), &raw, 8), "inline f64 is the payload"),
+            Ok(DbValue::String(v)) => assert!(t == 5 && v.len() <= 3 * n, "inline string (lossy: a bad byte becomes U+FFFD)"),
+            _ => panic!("a well-formed inline index must decode to its own type"),
+        }
+    }
+    std::mem::forget(r);
+}
+
+/// All 16 size nibbles for one type tag (unrolled: literals keep byte 15 constant).
+fn c07_decode_inline_sizes(s: &Storage<ArrStorage>, t: u8, wellformed_only: bool) {
+    macro_rules! each {
+        ($($sz:literal)*) => { $( c07_decode_inline(s, t, $sz, wellformed_only); )* };
+    }
+    each!(0 1 2 3 4 5 6 7 8 9 10 11 12 13 14 15);
+}
+
+//@ id=C07 tier=quick timeout=600 bounds="byte 15 enumerated: type tag 0 and 10..=15 (no DbValue variant) with every size nibble 0..=15; other 15 bytes symbolic" desc="DbValue::load_db_value on an index with an unknown type tag returns Err (or Ok) and never panics" kernel="DbValue::load_db_value,DbValueIndex::deserialize,DbValueIndex::get_type,DbValueIndex::value,DbValueIndex::is_value,DbValueIndex::index"
+#[kani::proof]
+#[kani::stub(std::fmt::format, crate::verif_support::fmt_stub)]
+#[kani::stub(crate::DbError::new, crate::verif_support::dberror_new_stub)]
+#[kani::stub(<crate::DbError as std::convert::From<std::string::FromUtf8Error>>::from, crate::verif_support::utf8err_stub)]
+#[kani::stub(<crate::DbError as std::convert::From<std::array::TryFromSliceError>>::from, crate::verif_support::sliceerr_stub)]
+#[kani::stub(<crate::DbError as std::convert::From<std::num::TryFromIntError>>::from, crate::verif_support::interr_stub)]
+#[kani::unwind(4)]
+fn c07_load_db_value_unknown_tag() {
+    let s = c07_small_storage();
+    c07_decode_inline_sizes(&s, 0, false);
+    c07_decode_inline_sizes(&s, 10, false);
+    c07_decode_inline_sizes(&s, 11, false);
+    c07_decode_inline_sizes(&s, 12, false);
+    c07_decode_inline_sizes(&s, 13, false);
+    c07_decode_inline_sizes(&s, 14, false);
+    c07_decode_inline_sizes(&s, 15, false);
+    kani::cover!(true, "end of harness reachable");
+    std::mem::forget(s);
+}
+
+//@ id=C07 tier=quick timeout=600 bounds="byte 15 enumerated: type tag 2, 3, 4 (I64/U64/F64) with every size nibble 0..=15; other 15 bytes symbolic" desc="DbValue::load_db_value on a scalar index whose inline size is not 8 returns Err (or Ok) and never panics" kernel="DbValue::load_db_value,DbValueIndex::deserialize,DbValueIndex::get_type,DbValueIndex::value,DbValueIndex::is_value,DbValueIndex::index"
+#[kani::proof]
+#[kani::stub(std::fmt::format, crate::verif_support::fmt_stub)]
+#[kani::stub(crate::DbError::new, crate::verif_support::dberror_new_stub)]
+#[kani::stub(<crate::DbError as std::convert::From<std::string::FromUtf8Error>>::from, crate::verif_support::utf8err_stub)]
+#[kani::stub(<crate::DbError as std::convert::From<std::array::TryFromSliceError>>::from, crate::verif_support::sliceerr_stub)]
+#[kani::stub(<crate::DbError as std::convert::From<std::num::TryFromIntError>>::from, crate::verif_support::interr_stub)]
+#[kani::unwind(4)]
+fn c07_load_db_value_scalar_any_size() {
+    let s = c07_small_storage();
+    c07_decode_inline_sizes(&s, 2, false);
+    c07_decode_inline_sizes(&s, 3, false);
+    c07_decode_inline_sizes(&s, 4, false);
+    kani::cover!(true, "end of harness reachable");
+    std::mem::forget(s);
+}
+
+//@ id=C07 tier=quick timeout=600 bounds="byte 15 enumerated: Bytes inline with every size 0..=15, I64/U64/F64 with size 8; payload symbolic" desc="a well-formed inline Bytes/I64/U64/F64 index always decodes (Ok) to a value of its own type made of exactly the payload bytes, whatever they are; never panics" kernel="DbValue::load_db_value,DbValueIndex::deserialize,DbValueIndex::get_type,DbValueIndex::value,DbValueIndex::is_value,DbValueIndex::index"
+#[kani::proof]
+#[kani::stub(std::fmt::format, crate::verif_support::fmt_stub)]
+#[kani::stub(crate::DbError::new, crate::verif_support::dberror_new_stub)]
+#[kani::stub(<crate::DbError as std::convert::From<std::string::FromUtf8Error>>::from, crate::verif_support::utf8err_stub)]
+#[kani::stub(<crate::DbError as std::convert::From<std::array::TryFromSliceError>>::from, crate::verif_support::sliceerr_stub)]
+#[kani::stub(<crate::DbError as std::convert::From<std::num::TryFromIntError>>::from, crate::verif_support::interr_stub)]
+#[kani::unwind(4)]
+fn c07_load_db_value_wellformed_inline() {
+    let s = c07_small_storage();
+    c07_decode_inline_sizes(&s, 1, true);
+    c07_decode_inline_sizes(&s, 2, true);
+    c07_decode_inline_sizes(&s, 3, true);
+    c07_decode_inline_sizes(&s, 4, true);
+    kani::cover!(true, "end of harness reachable");
+    std::mem::forget(s);
+}
+
+//@ id=C07 tier=quick timeout=900 bounds="String index with inline size 0, 1, 2 (enumerated), payload bytes symbolic (valid or invalid UTF-8)" desc="an inline String index with arbitrary (also invalid UTF-8) payload decodes to Ok(String) and never panics" kernel="DbValue::load_db_value,DbValueIndex::deserialize,DbValueIndex::get_type,DbValueIndex::value,DbValueIndex::is_value,DbValueIndex::index"
+#[kani::proof]
+#[kani::stub(std::fmt::format, crate::verif_support::fmt_stub)]
+#[kani::stub(crate::DbError::new, crate::verif_support::dberror_new_stub)]
+#[kani::stub(<crate::DbError as std::convert::From<std::string::FromUtf8Error>>::from, crate::verif_support::utf8err_stub)]
+#[kani::stub(<crate::DbError as std::convert::From<std::array::TryFromSliceError>>::from, crate::verif_support::sliceerr_stub)]
+#[kani::stub(<crate::DbError as std::convert::From<std::num::TryFromIntError>>::from, crate::verif_support::interr_stub)]
+#[kani::unwind(5)]
+fn c07_load_db_value_inline_string() {
+    let s = c07_small_storage();
+    c07_decode_inline(&s, 5, 0, true);
+    c07_decode_inline(&s, 5, 1, true);
+    c07_decode_inline(&s, 5, 2, true);
+    kani::cover!(true, "end of harness reachable");
+    std::mem::forget(s);
+}
+
+// Not covered (measured): out-of-line indexes naming records of another type.
+// Even 4 enumerated (type, record) cases over the 2-record storage exhausted
+// 10 GB in the solver (16 cases: 4.3 M steps, 1041 s, out of memory): the bytes
+// read back from the 192-byte storage array are not constants for CBMC, so
+// every deserializer loop is unrolled symbolically. Decoding arbitrary record
+// CONTENT is the subject of the C21 harnesses (Serialize impls).
+
+// ---------------------------------------------------------------------------
+// C07: fixed-size index records (file headers) decoded from arbitrary short buffers
+// ---------------------------------------------------------------------------
+
+/// `T::deserialize(&buf[..n])` for symbolic `n <= SIZE + 2` and symbolic bytes:
+/// never panics; Ok exactly when at least `SIZE` bytes are present; an accepted
+/// record re-serializes to the same `SIZE` bytes (so every field was read from
+/// its own offset).
+fn c07_fixed_record<T: Serialize, const SIZE: usize, const CAP: usize>() {
+    assert!(CAP == SIZE + 2);
+    let n: usize = kani::any();
+    kani::assume(n <= CAP);
+    let buf: [u8; CAP] = kani::any();
+    match T::deserialize(&buf[..n]) {
+        Ok(v) => {
+            assert!(n >= SIZE, "Ok needs the full record");
+            assert!(v.serialized_size() == SIZE as u64, "serialized_size");
+            let back = v.serialize();
+            assert!(back.len() == SIZE, "serialized length");
+            let mut i = 0;
+            while i < SIZE {
+                assert!(back[i] == buf[i], "field bytes round trip");
+                i += 1;
+            }
+            std::mem::forget(back);
+            std::mem::forget(v);
+        }
+        Err(e) => {
+            assert!(n < SIZE, "a full record must be accepted");
+            std::mem::forget(e);
+        }
+    }
+    kani::cover!(n == SIZE, "exact size");
+    kani::cover!(n + 1 == SIZE, "one byte short");
+    kani::cover!(n == CAP, "longer than needed");
+    kani::cover!(n == 0, "empty buffer");
+    kani::cover!(true, "end of harness reachable");
+}
+
+//@ id=C07 tier=quick timeout=900 bounds="buffer length 0..=50 symbolic, bytes symbolic" desc="DbStorageIndex::deserialize (root record of a database file) never panics: Err below 48 bytes, otherwise all six fields read from their offsets" kernel="DbStorageIndex::deserialize,DbStorageIndex::serialize,StorageIndex::deserialize,u64::deserialize"
+#[kani::proof]
+#[kani::stub(std::fmt::format, crate::verif_support::fmt_stub)]
+#[kani::stub(crate::DbError::new, crate::verif_support::dberror_new_stub)]
+#[kani::stub(<crate::DbError as std::convert::From<std::array::TryFromSliceError>>::from, crate::verif_support::sliceerr_stub)]
+#[kani::unwind(52)]
+fn c07_db_storage_index_arbitrary() {
+    c07_fixed_record::<crate::db::DbStorageIndex, 48, 50>();
+}
+
+//@ id=C07 tier=quick timeout=900 bounds="buffer length 0..=34 symbolic, bytes symbolic" desc="GraphDataStorageIndexes::deserialize never panics: Err below 32 bytes, otherwise the four storage indexes read from their offsets" kernel="GraphDataStorageIndexes::deserialize,GraphDataStorageIndexes::serialize,StorageIndex::deserialize"
+#[kani::proof]
+#[kani::stub(std::fmt::format, crate::verif_support::fmt_stub)]
+#[kani::stub(crate::DbError::new, crate::verif_support::dberror_new_stub)]
+#[kani::stub(<crate::DbError as std::convert::From<std::array::TryFromSliceError>>::from, crate::verif_support::sliceerr_stub)]
+#[kani::unwind(36)]
+fn c07_graph_storage_indexes_arbitrary() {
+    c07_fixed_record::<crate::graph::GraphDataStorageIndexes, 32, 34>();
+}
+
+//@ id=C07 tier=quick timeout=900 bounds="buffer length 0..=34 symbolic, bytes symbolic" desc="MapDataIndex::deserialize never panics: Err below 32 bytes, otherwise len and the three storage indexes read from their offsets" kernel="MapDataIndex::deserialize,MapDataIndex::serialize,StorageIndex::deserialize,u64::deserialize"
+#[kani::proof]
+#[kani::stub(std::fmt::format, crate::verif_support::fmt_stub)]
+#[kani::stub(crate::DbError::new, crate::verif_support::dberror_new_stub)]
+#[kani::stub(<crate::DbError as std::convert::From<std::array::TryFromSliceError>>::from, crate::verif_support::sliceerr_stub)]
+#[kani::unwind(36)]
+fn c07_map_data_index_arbitrary() {
+    c07_fixed_record::<crate::collections::map::MapDataIndex, 32, 34>();
+}
+
+//@ id=C07 tier=quick timeout=300 bounds="buffer length 0..=10 symbolic, bytes symbolic" desc="StorageIndex::deserialize never panics: Err below 8 bytes, otherwise the little-endian u64" kernel="StorageIndex::deserialize,StorageIndex::serialize,u64::deserialize"
+#[kani::proof]
+#[kani::stub(std::fmt::format, crate::verif_support::fmt_stub)]
+#[kani::stub(crate::DbError::new, crate::verif_support::dberror_new_stub)]
+#[kani::stub(<crate::DbError as std::convert::From<std::array::TryFromSliceError>>::from, crate::verif_support::sliceerr_stub)]
+#[kani::unwind(12)]
+fn c07_storage_index_arbitrary() {
+    c07_fixed_record::<StorageIndex, 8, 10>();
+}
+
+//@ id=C07 tier=quick timeout=300 bounds="buffer length 0..=3 symbolic, bytes symbolic" desc="MapValueState::deserialize never panics: 0/1/2 in the first byte decode to Empty/Valid/Deleted, anything else or an empty buffer is Err; accepted states re-serialize to the same byte" kernel="MapValueState::deserialize,MapValueState::serialize"
+#[kani::proof]
+#[kani::stub(std::fmt::format, crate::verif_support::fmt_stub)]
+#[kani::stub(crate::DbError::new, crate::verif_support::dberror_new_stub)]
+#[kani::unwind(5)]
+fn c07_map_value_state_arbitrary() {
+    use crate::collections::map::MapValueState;
+    let n: usize = kani::any();
+    kani::assume(n <= 3);
+    let buf: [u8; 3] = kani::any();
+    match MapValueState::deserialize(&buf[..n]) {
+        Ok(st) => {
+            assert!(n >= 1 && buf[0] <= 2, "only 0, 1, 2 are states");
+            let expect = match buf[0] {
+                0 => MapValueState::Empty,
+                1 => MapValueState::Valid,
+                _ => MapValueState::Deleted,
+            };
+            assert!(st == expect, "state decoded from the first byte");
+            let back = st.serialize();
+            assert!(back.len() == 1 && back[0] == buf[0], "state byte round trip");
+            std::mem::forget(back);
+        }
+        Err(e) => {
+            assert!(n == 0 || buf[0] > 2, "valid state byte must be accepted");
+            std::mem::forget(e);
+        }
+    }
+    kani::cover!(n == 0, "empty buffer");
+    kani::cover!(n > 0 && buf[0] == 2, "Deleted");
+    kani::cover!(n > 0 && buf[0] == 255, "garbage state");
+    kani::cover!(true, "end of harness reachable");
+}
